@@ -104,10 +104,6 @@ theorem runCanBegin_step {s s' : St} {b : Bool} (hs : s.stop = true) (tr : Tr s 
   | uStopSet _ => exact same rfl
   | uStopBump _ => exact same rfl
 
-inductive Path : St → List St → Prop where
-  | nil (s) : Path s []
-  | cons {s s' b rest} : Tr s b s' → Path s' rest → Path s (s' :: rest)
-
 def countRunBegins : St → List St → Nat
   | _, [] => 0
   | s, s' :: rest => (if beginsRun s s' then 1 else 0) + countRunBegins s' rest
